@@ -646,6 +646,11 @@ func c12_5(c *core.Ctx, p *core.Prog) {
 	}
 	sort.Strings(writers)
 	c.Check(len(writers) == 1 && inc != nil, "counter|single-writer", p.Pos(a.produce.Pos()), core.FuncName(a.produce), "the schema-id counter has one writer", fmt.Sprintf("the counter the schema ids are taken from (%s) is written at %v: a second writer (e.g. a statistics reset) makes the numbering start again, so a later sub-stream gets the id of a live or retired one", a.nextF.Name(), writers))
+	// width: ids are never reused only as long as the counter cannot wrap within the life of a producer — a
+	// shared attribute sub-stream that flips between two schemas burns one id per batch
+	bits, _ := intBits(a.nextF.Type())
+	c.Check(bits == 64, "counter|width", p.Pos(a.nextF.Pos()), core.FuncName(a.produce), "the schema-id counter is 64 bits wide",
+		fmt.Sprintf("the counter the schema ids are taken from (%s) is %d bits wide: after 2^%d stream producers it wraps and hands out the id of a live (or retired) sub-stream again — one id then denotes two payload types and schemas", a.nextF.Name(), bits, bits))
 	// the construction of a new stream producer (in the per-message function or a helper)
 	var al *ssa.Alloc
 	for _, f := range arrowRecordFuncs(p) {
